@@ -3,8 +3,8 @@ from .core import VN, VS, VL
 from .engine import Family
 
 
-def case(endpoint, ops, delay=15):
-    return [VS(endpoint), VL([VL([VS(o), VN(a)]) for o, a in ops]), VN(delay)]
+def case(endpoint, ops, delay=15, reps=1):
+    return [VS(endpoint), VL([VL([VS(o), VN(a)]) for o, a in ops]), VN(delay), VN(reps)]
 
 
 class Conc(Family):
@@ -24,6 +24,13 @@ class Conc(Family):
             for _ in range(10):
                 ops = [(rng.choice(fe_ops), i + 1) for i in range(3)]
                 out.append((case("frontend", ops, rng.choice([10, 20])), "frontend-3"))
+            # stress: many fast iterations per caller, the peer answers at once and looks for a second request already waiting
+            for ops in ([("get_vring_base", 1), ("get_vring_base", 2), ("get_features", 3)],
+                        [("get_vring_base", 1), ("set_vring_num", 2), ("get_queue_num", 3)],
+                        [("get_features", 1), ("get_vring_base", 2)]):
+                out.append((case("frontend", ops, 0, 3000), "frontend-stress"))
+            out.append((case("proxy", [("shared_object_add", i) for i in range(3)], 0, 3000), "proxy-stress"))
+            out.append((case("gpu", [("get_protocol_features", 0)] * 3, 0, 3000), "gpu-stress"))
             for n in (2, 3):
                 out.append((case("proxy", [("shared_object_add", i) for i in range(n)], 15), "proxy"))
                 out.append((case("gpu", [("get_protocol_features", 0)] * n, 15), "gpu"))
